@@ -141,7 +141,7 @@ pub fn run() -> i32 {
     let mut r = Report::new("C03");
     r.rule = "rules IN > OUT [/ ENV] [| ENV] over IN in {p,t,a,i,[+cons],C,V,[+hi],{p,a},[-hi]} and the input-only sets {C,a}, {[+hi],p}, {V}, OUT in {t,i,[+voice],[-hi],{t,i}}, ENV = before x after item sequences over the 10 segment items and $, # outermost; every rule x every word of the word space in every syllabification; real parser + Rule::apply vs reference interpreter, structural comparison. Non-trivial = the reference interpreter rewrites at least one position.".into();
     r.assumptions.push("reference interpreter harness/src/refint.rs written from doc.md; `$` = any syllable edge incl. word edges, `#` = word edge, both zero-width".into());
-    r.assumptions.push("cases with two equal adjacent segments inside a syllable at any stage are skipped (length notation; excluded by the property)".into());
+    r.assumptions.push("rules with a context or exception: cases in which a rewrite makes two neighbours of a syllable equal are skipped (what an environment item sees of the merged run is not documented); environment-free rules are judged on every word".into());
     let w44 = word_space(&inventory(4), 4);
     if !r.thorough() {
         let e1 = envs(1);
@@ -154,6 +154,20 @@ pub fn run() -> i32 {
             }
         }
         run_box(&mut r, "Q: c=1, context-only and exception-only, W(I4,4)", rules, &w44);
+        // Q6: rewrites that make a segment equal to its neighbour. Environment-free rules look at no neighbour, so every segment is rewritten on its
+        // own whether or not the results are equal: inventories with pairs one feature apart (t/d/k/ɡ for [+voice], i/e/a for [-hi]) and with
+        // the IPA outputs themselves (t, i), on every word of up to 5 segments in every syllabification
+        {
+            let mut q6 = vec![];
+            for (i, o) in io_pairs(false) { q6.push(BasicRule { input: i.clone(), output: o.clone(), context: vec![], except: vec![] }); }
+            for i in [ipa("d"), ipa("k"), ipa("e"), It::Set(vec![ipa("t"), ipa("d")]), It::Set(vec![ipa("i"), ipa("e")])] { for o in out_items() { q6.push(BasicRule { input: i.clone(), output: o.clone(), context: vec![], except: vec![] }); } }
+            q6.push(BasicRule { input: It::Set(vec![ipa("t"), ipa("d")]), output: OutIt::Set(vec![OutIt::Ipa("d", seg("d")), OutIt::Ipa("t", seg("t"))]), context: vec![], except: vec![] });
+            q6.push(BasicRule { input: It::Set(vec![ipa("i"), ipa("e")]), output: OutIt::Set(vec![OutIt::Ipa("e", seg("e")), OutIt::Ipa("i", seg("i"))]), context: vec![], except: vec![] });
+            let inv_a: Vec<SegBits> = ["t", "d", "k", "a"].iter().map(|t| seg(t)).collect();
+            let inv_b: Vec<SegBits> = ["i", "e", "t", "ɡ"].iter().map(|t| seg(t)).collect();
+            let mut ws = word_space(&inv_a, 5); ws.extend(word_space(&inv_b, 5));
+            run_box(&mut r, "Q6: environment-free rules on words where a rewrite makes a segment equal to its neighbour, W({t,d,k,a},5) + W({i,e,t,ɡ},5)", q6, &ws);
+        }
         // two items per side, for two IN/OUT pairs, on W(I3,4): every window of the c=2 shapes
         let w34 = word_space(&inventory(3), 4);
         let e2 = envs(2);
